@@ -247,8 +247,10 @@ def run(ctx):
     # ---- S3 second opinion: snprintf inside the harness, uniform bit patterns in bulk ----------
     per = 120000 if ctx.thorough else 5000
     sets = [("--fmt-doubles", ctx.seed * 1000 + k, per) for k in range(16)]
+    if getattr(ctx, "_harness_dead", False):
+        sets = []       # the sanitized harness already hung or kept faulting: the verdict is a failure, do not wait for the bulk
     tested = 0
-    for a, rc, out in N.run_bulk(fast, sets):
+    for a, rc, out in N.run_bulk(fast, sets, timeout=3000 if ctx.thorough else 400):
         done = [l for l in out.split("\n") if l.startswith("done")]
         if rc != 0 or not done:
             ctx.infra_errors.append("bulk snprintf run %s failed rc=%s: %s" % (a, rc, out[-500:]))
